@@ -493,22 +493,64 @@ func (c *Ctx) c07Loop(g *ssa.Function) {
 	r.Ok("R3", key, c.pos(w), "exactly one Write/WriteStream in the loop")
 
 	// ---- R4 ----
-	var wn, werr ssa.Value
-	for _, ref := range flow.Referrers(w) {
-		if ex, ok := ref.(*ssa.Extract); ok {
-			if isErrorType(ex.Type()) {
-				werr = ex
-			} else if ex.Index == 0 {
-				wn = ex
+	results := func(call *ssa.Call) (n, e ssa.Value) {
+		for _, ref := range flow.Referrers(call) {
+			if ex, ok := ref.(*ssa.Extract); ok {
+				if isErrorType(ex.Type()) {
+					e = ex
+				} else if ex.Index == 0 {
+					n = ex
+				}
 			}
 		}
+		return
 	}
+	wn1, werr1 := results(w)
 	key = fname(g) + ":resume-arithmetic"
 	inLoop := func(i int, ph *ssa.Phi) bool { return l.Blocks[ph.Block().Preds[i]] }
 	isHeadPhi := func(v ssa.Value) (*ssa.Phi, bool) {
 		ph, ok := v.(*ssa.Phi)
 		return ph, ok && ph.Block() == l.Head
 	}
+	// peeled form: the first attempt is written out in front of the loop (same transport, same method, the
+	// buffer handed in) and the loop body ends with the retry's write; the count and the error of "the
+	// preceding write" are then loop-head merges of the two writes' results
+	var w0 *ssa.Call
+	nOutside := 0
+	flow.Instrs(g, func(in ssa.Instruction) {
+		if !isTransportWriteInvoke(in) || flow.InnermostLoop(loops, in) != nil {
+			return
+		}
+		nOutside++
+		c0 := in.(*ssa.Call)
+		same := c0.Call.Value == w.Call.Value && c0.Call.IsInvoke() == w.Call.IsInvoke() && (!w.Call.IsInvoke() || c0.Call.Method == w.Call.Method)
+		if _, isP := flow.Peel(c0.Call.Args[0]).(*ssa.Parameter); same && isP && c0.Block().Dominates(l.Head) {
+			w0 = c0
+		}
+	})
+	if nOutside != 1 {
+		w0 = nil
+	}
+	var wn0, werr0 ssa.Value
+	if w0 != nil {
+		wn0, werr0 = results(w0)
+	}
+	// mergeOf: v is the loop-head merge of the peeled write's result (entry) and the loop write's result (back)
+	mergeOf := func(v, first, again ssa.Value) bool {
+		ph, isHead := isHeadPhi(v)
+		if !isHead || w0 == nil || first == nil || again == nil {
+			return false
+		}
+		for i, e := range ph.Edges {
+			if inLoop(i, ph) && e != again || !inLoop(i, ph) && e != first {
+				return false
+			}
+		}
+		return true
+	}
+	isWn := func(v ssa.Value) bool { return v != nil && (v == wn1 && w0 == nil || mergeOf(v, wn0, wn1)) }
+	isWerr := func(v ssa.Value) bool { return v != nil && (v == werr1 && w0 == nil || mergeOf(v, werr0, werr1)) }
+	wn, werr := wn1, werr1
 	// alternatives of a value through merge phis inside the loop
 	var alts func(v ssa.Value, d int) []ssa.Value
 	alts = func(v ssa.Value, d int) []ssa.Value {
@@ -555,8 +597,26 @@ func (c *Ctx) c07Loop(g *ssa.Function) {
 			func(e ssa.Value) bool { _, isP := flow.Peel(e).(*ssa.Parameter); return isP },
 			func(a ssa.Value) bool {
 				sl, ok := a.(*ssa.Slice)
-				return ok && sl.X == ssa.Value(ph) && sl.Low == wn && sl.High == nil
+				return ok && sl.X == ssa.Value(ph) && isWn(sl.Low) && sl.High == nil
 			})
+	} else if ph := c07PeeledCarry(arg, alts, isHeadPhi); ph != nil && w0 != nil {
+		// peeled reslice form: the loop's write sends the carried buffer, re-sliced after the preceding write's count
+		backOK := true
+		for i, e := range ph.Edges {
+			if inLoop(i, ph) && e != arg {
+				backOK = false
+			}
+		}
+		if !backOK {
+			okSlice, why = false, "the buffer carried to the next iteration is not the one the retry wrote"
+		} else {
+			okSlice, why = stepOK(ph,
+				func(e ssa.Value) bool { return flow.Peel(e) == flow.Peel(w0.Call.Args[0]) },
+				func(a ssa.Value) bool {
+					sl, ok := a.(*ssa.Slice)
+					return ok && sl.X == ssa.Value(ph) && isWn(sl.Low) && sl.High == nil
+				})
+		}
 	} else if sl, isSl := arg.(*ssa.Slice); isSl && sl.High == nil && sl.Low != nil {
 		// offset form: write(b[sent:]); sent += wn
 		if _, isP := flow.Peel(sl.X).(*ssa.Parameter); isP {
@@ -565,7 +625,7 @@ func (c *Ctx) c07Loop(g *ssa.Function) {
 				okSlice, why = stepOK(ph, isZeroConst,
 					func(a ssa.Value) bool {
 						bo, ok := a.(*ssa.BinOp)
-						return ok && bo.Op == token.ADD && ((bo.X == ssa.Value(ph) && bo.Y == wn) || (bo.Y == ssa.Value(ph) && bo.X == wn))
+						return ok && bo.Op == token.ADD && ((bo.X == ssa.Value(ph) && isWn(bo.Y)) || (bo.Y == ssa.Value(ph) && isWn(bo.X)))
 					})
 			}
 		}
@@ -645,7 +705,7 @@ func (c *Ctx) c07Loop(g *ssa.Function) {
 				_ = isP
 			}
 		case *ssa.Extract:
-			if ta, ok := x.Tuple.(*ssa.TypeAssert); ok && x.Index == 1 && !neg && ta.X == werr && flow.TypeIs(ta.AssertedType, "net", "Error") {
+			if ta, ok := x.Tuple.(*ssa.TypeAssert); ok && x.Index == 1 && !neg && isWerr(ta.X) && flow.TypeIs(ta.AssertedType, "net", "Error") {
 				conds["err is net.Error"] = true
 			}
 		case *ssa.Call:
@@ -655,7 +715,7 @@ func (c *Ctx) c07Loop(g *ssa.Function) {
 			// a package-local predicate over the write's error
 			if h := flow.StaticCallee(x); h != nil && h.Blocks != nil && c.P.IsLibrary(h) && !neg {
 				for i, a := range x.Call.Args {
-					if a == werr && i < len(h.Params) && impliesTemporaryNetError(h, h.Params[i]) {
+					if isWerr(a) && i < len(h.Params) && impliesTemporaryNetError(h, h.Params[i]) {
 						conds["err is net.Error"], conds["Temporary()"] = true, true
 					}
 				}
@@ -673,11 +733,51 @@ func (c *Ctx) c07Loop(g *ssa.Function) {
 	// n accumulates
 	accOK := false
 	for _, rv := range flow.ReturnValues(g, 0) {
-		if bo, ok := rv.(*ssa.BinOp); ok && bo.Op == token.ADD && (bo.Y == wn || bo.X == wn) {
+		if bo, ok := rv.(*ssa.BinOp); ok && bo.Op == token.ADD && (bo.Y == wn || bo.X == wn) && w0 == nil {
 			accOK = true
+		}
+		// peeled form: total = (first count) on entry, total + (retry's count) on every back edge
+		if ph, isHead := isHeadPhi(rv); isHead && w0 != nil {
+			good := true
+			for i, e := range ph.Edges {
+				if !inLoop(i, ph) {
+					if e != wn0 {
+						good = false
+					}
+					continue
+				}
+				bo, ok := e.(*ssa.BinOp)
+				if !ok || bo.Op != token.ADD || !((bo.X == ssa.Value(ph) && bo.Y == wn1) || (bo.Y == ssa.Value(ph) && bo.X == wn1)) {
+					good = false
+				}
+			}
+			if good {
+				accOK = true
+			}
 		}
 	}
 	r.Check(accOK, "R4", fname(g)+":count-accumulates", c.pos(w), "the returned byte count is the sum of the counts of all writes", "the returned byte count does not accumulate the counts of the individual writes")
+}
+
+// c07PeeledCarry: arg (the buffer the loop's write sends) is made, through merges inside the loop, of a
+// loop-head phi and re-slicings of that phi; returns the phi.
+func c07PeeledCarry(arg ssa.Value, alts func(ssa.Value, int) []ssa.Value, isHeadPhi func(ssa.Value) (*ssa.Phi, bool)) *ssa.Phi {
+	var ph *ssa.Phi
+	for _, a := range alts(arg, 0) {
+		var cand ssa.Value = a
+		if sl, ok := a.(*ssa.Slice); ok {
+			cand = sl.X
+		}
+		p, isHead := isHeadPhi(cand)
+		if !isHead || (ph != nil && p != ph) {
+			return nil
+		}
+		ph = p
+	}
+	if ph != nil && ssa.Value(ph) == arg {
+		return nil // the plain head-phi form is handled by the caller
+	}
+	return ph
 }
 
 // impliesTemporaryNetError: the boolean function h returns true only when its parameter p is a net.Error whose
